@@ -234,8 +234,30 @@ impl<S: Storage> Builder<S> {
                     use std::ops::Bound;
                     let mut egraph = egg::EGraph::new(ExprAnalysis::default());
                     let root = egraph.add_expr(&self.recexpr(filter));
-                    let expr: Option<crate::storage::KeyRange> =
-                        egraph[root].data.range.clone().map(|(_, r)| r);
+                    // The optimizer pushed the condition down because an equivalent form of it has
+                    // INT bounds; the form that was extracted may spell a bound as a BIGINT or
+                    // SMALLINT constant of the same value (`a = 12 and a = cast(12 as bigint)`).
+                    // The storage compares keys with INT bounds only.
+                    let as_int = |bound: Bound<DataValue>| match bound {
+                        Bound::Included(DataValue::Int64(v)) if i32::try_from(v).is_ok() => {
+                            Bound::Included(DataValue::Int32(v as i32))
+                        }
+                        Bound::Excluded(DataValue::Int64(v)) if i32::try_from(v).is_ok() => {
+                            Bound::Excluded(DataValue::Int32(v as i32))
+                        }
+                        Bound::Included(DataValue::Int16(v)) => {
+                            Bound::Included(DataValue::Int32(v as i32))
+                        }
+                        Bound::Excluded(DataValue::Int16(v)) => {
+                            Bound::Excluded(DataValue::Int32(v as i32))
+                        }
+                        bound => bound,
+                    };
+                    let expr: Option<crate::storage::KeyRange> = (egraph[root].data.range.clone())
+                        .map(|(_, r)| crate::storage::KeyRange {
+                            start: as_int(r.start),
+                            end: as_int(r.end),
+                        });
                     if matches!(
                         expr,
                         Some(crate::storage::KeyRange {
